@@ -1,9 +1,14 @@
 from .common import COMMON_ASSUME
 
 CFG = {
+    "extra_props_modules": ["RpmVerif.Props.Pipeline"],
     "props_module": "RpmVerif.Props.C08",
     "required_theorems": ["RpmVerif.C08.writeAllH_hashed_eq_accepted", "RpmVerif.C08.runH_hashed_eq_accepted", "RpmVerif.C08.alt_digest",
-                          "RpmVerif.C08.build_digests", "RpmVerif.C08.sig_header_sha256", "RpmVerif.C08.file_digests"],
+                          "RpmVerif.C08.build_digests", "RpmVerif.C08.sig_header_sha256", "RpmVerif.C08.file_digests",
+                          "RpmVerif.Pipeline.build_verifies_digests", "RpmVerif.Pipeline.build_payload_digest_ok",
+                          "RpmVerif.Pipeline.build_reparse_verifies", "RpmVerif.Pipeline.build_offsets",
+                          "RpmVerif.Pipeline.build_files_roundtrip", "RpmVerif.Pipeline.build_valid",
+                          "RpmVerif.Pipeline.built_package_sound"],
     "trivial_branches": ["build-rejected"],
     "rule": "(a) rpm::Sha256Writer over scripted inner sinks (accept k bytes, Interrupted, hard failure, Ok(0); data submitted as 1..3 write_all calls): "
             "digest vs SHA-256 of the bytes the sink accepted; (b) real builds: every compressor × file sizes 0 / 1 / 4 KiB / 70 kB / 300 kB (3 MB in thorough, "
@@ -20,6 +25,10 @@ CFG = {
                   "Sha256Writer feeds to the hasher are exactly the bytes the inner writer accepted, so when all write_all calls succeed PAYLOADDIGESTALT is the "
                   "digest of the whole uncompressed archive (alt_digest; the pre-fix code is refuted by a concrete witness); build records the digest of the "
                   "serialised main header under RPMSIGTAG_SHA256 (also for the signature headers produced by sign / clear), the payload digest under "
-                  "PAYLOADDIGEST and one digest per file in file order. Tied to the code by scripted-sink runs and by real builds checked against independent digests.",
+                  "PAYLOADDIGEST and one digest per file in file order. Tied to the code by scripted-sink runs and by real builds checked against independent digests. "
+                  "Pipeline theorems (Props/Pipeline.lean) compose this with the other layers at the package build returns, for every configuration, clock value, "
+                  "archive, payload and hash function: it passes verify_digests (build_verifies_digests, no hypothesis), for valid configurations it re-parses to "
+                  "itself and still passes (build_reparse_verifies), its offsets are the real boundaries (build_offsets), files() yields the builder's files in path "
+                  "order with their contents (build_files_roundtrip), and one summary statement bundles these with the signing histories (built_package_sound).",
     "level_note": "Trusted: Lean kernel; sha2 / codec crates as oracle; model fidelity as exercised.",
 }
